@@ -230,8 +230,9 @@ func HarnessC18Processed() {
 	finished := 0
 	b := c18Backend(&notifSubscriber{}, pub, &finished, ackErrors)
 	var herr error
+	errText := vrt.Str("handler.error.text") // any text, the empty one included
 	if handlerFailed {
-		herr = errScripted
+		herr = errors.New(errText)
 	}
 	err := b.OnCommandProcessed(context.Background(), BackendOnCommandProcessedParams[c18Result]{
 		Command: &struct{}{}, CommandMessage: cmd, HandlerResult: c18Result{N: 7}, HandleErr: herr})
@@ -244,6 +245,7 @@ func HarnessC18Processed() {
 	vrt.Assert(len(pub.msgs) == 1 && pub.msgs[0].Metadata.Get(OperationIDMetadataKey) == "op-1", "the reply carries the command's operation id")
 	rep, uerr := BackendPubsubJSONMarshaler[c18Result]{}.UnmarshalReply(pub.msgs[0])
 	vrt.Assert(uerr == nil && rep.HandlerResult.N == 7, "the reply carries the handler's result")
-	vrt.Assert((rep.Error != nil) == handlerFailed && (rep.Error == nil || rep.Error.Error() == errScripted.Error()), "and the handler's error text")
+	vrt.Assert((rep.Error != nil) == handlerFailed && (rep.Error == nil || rep.Error.Error() == errText), "and the handler's error text")
 	vrt.Assert((err != nil) == (handlerFailed && !ackErrors), "the command is acked or nacked as AckCommandErrors says")
+	vrt.Assert(err == nil || err == herr, "the handler's own error is what makes the command Nack")
 }
